@@ -23,6 +23,29 @@ guard clauses that only raise, ``return``.  Expression grammar: arithmetic, call
 known length (``a, b = (f(x) for x in (s, s0))``), and calls of builtins / string methods over
 constants (``"".join(map(str, ids))``), which are folded to the constant.
 
+Loops and callables (the same term whether a sum is written out, accumulated or folded): ``for x in T``
+over a collection of known length and order (tuple / list value, dict value, constant range) is unrolled
+into its statements (no ``break`` / ``continue``; also under ``fork``); ``sum`` / ``math.prod`` /
+``functools.reduce`` / ``map`` / ``zip`` / ``enumerate`` / ``reversed`` / ``itertools.chain`` / ``product`` /
+``starmap`` / ``combinations`` / ``permutations`` over such collections are folded; ``operator.add`` ... are the operators; a ``lambda``, a nested ``def``, a
+``functools.partial`` and a reference to a package function / class held in a local are callable values
+(``Lam``, ``Partial``) applied by binding their parameters; ``f(*args)`` / ``sp.Piecewise(*branches)``
+splat tuple values into any call; ``d[k]`` / ``d.get(k, v)`` / ``d.items()`` read a dict value, ``{k: v for ...}``
+builds one; ``sp.eye(n)`` / ``sp.zeros`` / ``sp.ones`` / ``sp.diag(a, b, ...)`` / ``sp.Matrix(r, c, f)`` are the
+matrices they build, ``m[i, j] = v`` (also ``op=``) fills an entry and ``m[1:, 1:] = block`` a block in place, ``m[a:b, c:d]``
+/ ``row_join`` / ``col_join`` / ``hstack`` / ``vstack`` / ``row`` / ``col`` / ``applyfunc`` / ``.T`` cut and glue, a scalar factor applies entry-wise;
+``b.field`` of an instance of a repo expression class is the argument it was built with (``b = self.evaluate();
+b.b01``); ``(x,) = S`` unpacks a constant one-element set; strings are built by f-string, ``+``, ``%``,
+``.format``, ``s += t``, the methods of ``str`` over constants (``.strip()``, ``.replace(a, b)``, ``.splitlines()``), slices with constant bounds (``letters[k : k + 2]``) and ``"".join(generator)``; a module-level constant table (tuple display, or a list / set display that nothing in the module touches) is its value; a ``try`` whose handlers only re-raise is its body; ``sp.Not`` / ``And`` / ``Or`` / ``~`` / ``&`` / ``|`` over relations are kept as ``Logic`` values; an object of a plain record class
+(NamedTuple / dataclass / attrs without converters or constructor hooks) is its constructor arguments (``p.mass``,
+``p[0]``, ``a, b = p``); ``assert`` and the walrus
+are read as what they do; ``def f(*pairs, **options)`` binds the surplus positional / keyword arguments as the
+tuple / dict value the callee sees.  Opt-in object model (a rule installs ``new_object`` as the override of a plain
+class): ``C(...)`` is the struct of the attributes ``__init__`` stores on ``self``, ``obj.method`` the bound method,
+``obj(...)`` its ``__call__``; ``module_values`` holds module-level objects a rule evaluated beforehand (a shared
+builder instance used by module functions); ``sp.Symbol(name, **assumptions)`` reads the dict value, and every
+construction of a symbol name is kept in ``symbol_constructions``.
+
 Anything outside the grammar raises ``ExtractionError`` (reported as ANALYSIS-ERROR for
 that instance, never as a pass or a violation).
 """
@@ -31,6 +54,7 @@ from __future__ import annotations
 
 import ast
 import re
+import string as _string
 from dataclasses import dataclass
 from fractions import Fraction
 from typing import Any, Callable
@@ -101,6 +125,18 @@ class Rel:
 
 
 @dataclass
+class Logic:
+    """``Not`` / ``And`` / ``Or`` of relations (``sp.Not(k <= 0)``, ``~c``, ``a & b``): kept structurally, because a
+    negated relation is not the flipped relation where the comparison is undefined (NaN)."""
+
+    op: str  # "not" | "and" | "or"
+    args: list
+
+    def key(self):
+        return ("logic", self.op, tuple(vkey(a) for a in self.args))
+
+
+@dataclass
 class PW:
     branches: list[tuple[Any, Any]]  # (value, condition) ; condition True -> Opaque(True)
 
@@ -136,6 +172,26 @@ class Bound:
 
 
 @dataclass
+class Lam:
+    """A ``lambda`` (or a nested ``def``) held in a local / handed to a helper, ``map`` or ``reduce``: applied by binding its parameters in the
+    environment it was written in (the same dict object: free names are looked up late, like a closure).
+    It has no canonical key on purpose: a callable cannot become part of a term."""
+
+    node: Any  # ast.Lambda
+    env: Any
+    fn: Any
+
+
+@dataclass
+class Partial:
+    """``functools.partial(f, *args, **kwargs)``: the callable value ``f`` with some arguments already given."""
+
+    func: Any
+    args: list
+    kwargs: dict
+
+
+@dataclass
 class AppInfo:
     """What an App atom stands for (kept in a side table keyed by the atom)."""
 
@@ -147,7 +203,7 @@ class AppInfo:
 def vkey(v) -> Any:
     if isinstance(v, RF):
         return v.key()
-    if isinstance(v, (Tup, Mat, Rel, PW, DictV, Bound)):
+    if isinstance(v, (Tup, Mat, Rel, PW, DictV, Bound, Logic)):
         return v.key()
     if isinstance(v, dict):
         return ("struct", tuple(sorted((str(k), vkey(x)) for k, x in v.items())))
@@ -182,6 +238,14 @@ EXTERNAL_SIGNATURES = {
 }
 IDENTITY_FUNCS = {"sympify", "_sympify", "S", "nsimplify", "Rational1"}
 SYMPY_CONSTANTS = {"I": "I", "pi": "pi", "oo": "oo"}
+# standard-library callables that are folded over term values (see TermEval._stdlib)
+STDLIB_ARITH = {"add": ast.Add, "sub": ast.Sub, "mul": ast.Mult, "truediv": ast.Div, "pow": ast.Pow, "matmul": ast.MatMult}
+STDLIB_REL = {"lt": "<", "le": "<=", "gt": ">", "ge": ">=", "eq": "==", "ne": "!="}
+STDLIB_FOLDS = {
+    "functools.reduce", "functools.partial", "math.prod", "itertools.chain", "itertools.chain.from_iterable",
+    "itertools.product", "itertools.starmap", "itertools.combinations", "itertools.permutations", "itertools.zip_longest",
+}
+BUILTIN_FOLDS = {"sum", "map", "zip", "enumerate", "reversed", "tuple", "list", "len", "dict"}
 
 
 class TermEval:
@@ -195,8 +259,15 @@ class TermEval:
         # judge every path separately may switch this on (a PW inside arithmetic is opaque).
         self.fork = False
         self.symbol_assumptions: dict[str, dict] = {}
+        self.module_values: dict[str, Any] = {}  # qualname of a module-level name -> its value (objects built at import time; set by a rule)
+        self.symbol_constructions: dict[str, list] = {}  # name -> [(constructor, assumptions)] of every evaluated construction
         # hooks: qualname -> callable(evaluator, args, kwargs) overriding inlining
         self.overrides: dict[str, Callable] = {}
+        # App atom of a plain record object -> (class, [(field, value)]) (see _record_fields)
+        self.records: dict[Any, tuple] = {}
+        # raise-only guard clauses that were passed over because their test is not decided by the constants at hand
+        # (a rule that concludes "the function accepts these arguments" must find this list empty)
+        self.skipped_guards: list[str] = []
 
     # ------------------------------------------------------------------ atoms
     def app(self, name: str, args: list, kwargs: dict | None = None) -> RF:
@@ -241,17 +312,66 @@ class TermEval:
         if fn is not None:
             target = self.tree.resolve(fn.module, node, fn)
             if target:
+                if target in self.module_values:
+                    return self.module_values[target]  # a module-level object a rule evaluated beforehand (opt-in)
+                table = self._module_table(target)
+                if table is not None:
+                    return self._from_py(table)
                 return Opaque(("ref", target))
         raise ExtractionError(f"unbound name `{node.id}`")
+
+    def _module_table(self, target: str):
+        """The value of a module-level constant TABLE (a tuple display of ints / strings / tuples, bound once at
+        module level): a loop or a membership test over `_CYCLIC_PAIRS` reads the same as over the literal."""
+        cache = self.__dict__.setdefault("_table_cache", {})
+        if target not in cache:
+            cache[target] = self._module_table_uncached(target)
+        return cache[target]
+
+    def _module_table_uncached(self, target: str):
+        mod_name, sep, name = target.partition("::")
+        mod = self.tree.modules.get(mod_name) if sep else None
+        if mod is None or "." in name or target in self.tree.funcs or target in self.tree.classes:
+            return None
+        st = mod.toplevel.get(name)
+        value = getattr(st, "value", None)
+        if not isinstance(st, (ast.Assign, ast.AnnAssign)) or not isinstance(value, (ast.Tuple, ast.Set, ast.List, ast.Call)):
+            return None
+        for n in ast.walk(value):
+            if isinstance(n, ast.Call) and not (isinstance(n.func, ast.Name) and n.func.id in {"frozenset", "tuple"} and len(n.args) == 1 and not n.keywords):
+                return None
+            if not isinstance(n, (ast.Tuple, ast.Set, ast.List, ast.Constant, ast.UnaryOp, ast.USub, ast.Load, ast.Call, ast.Name)):
+                return None
+            if isinstance(n, ast.Name) and n.id not in {"frozenset", "tuple"}:
+                return None
+        bindings = [n for n in ast.walk(mod.tree) if isinstance(n, ast.Name) and n.id == name and isinstance(n.ctx, (ast.Store, ast.Del))]
+        rebinds = [n for n in ast.walk(mod.tree) if isinstance(n, (ast.Global, ast.Nonlocal)) and name in n.names]
+        # a list / set display is a constant table only if nothing in the module can change it: no method is called
+        # on the name, it is never subscript-assigned (reading it, iterating it, `in` are fine)
+        touched = [n for n in ast.walk(mod.tree) if isinstance(n, ast.Attribute) and isinstance(n.value, ast.Name) and n.value.id == name and n.attr not in {"__len__", "__contains__", "index", "count"}]
+        touched += [n for n in ast.walk(mod.tree) if isinstance(n, ast.Subscript) and isinstance(n.value, ast.Name) and n.value.id == name and isinstance(n.ctx, (ast.Store, ast.Del))]
+        if not isinstance(value, ast.Tuple) and touched:
+            return None
+        if len(bindings) != 1 or rebinds:
+            # bound more than once somewhere in the module (a local of the same name counts: that is the cautious side)
+            return None
+        try:
+            return self.const(value, {}, None)
+        except TermEval.NotConst:
+            return None
 
     def _ev_UnaryOp(self, node, env, fn, depth):
         v = self.ev(node.operand, env, fn, depth)
         if isinstance(node.op, ast.USub):
+            if isinstance(v, Mat):
+                return Mat([[-e for e in r] for r in v.rows])
             return -self._rf(v, node)
         if isinstance(node.op, ast.UAdd):
             return v
         if isinstance(node.op, ast.Not):
             return Opaque(("not", vkey(v)))
+        if isinstance(node.op, ast.Invert) and isinstance(v, (Rel, Logic)):
+            return Logic("not", [v])
         raise ExtractionError(f"unary {type(node.op).__name__}")
 
     def _rf(self, v, node=None) -> RF:
@@ -269,10 +389,32 @@ class TermEval:
     def _ev_BinOp(self, node, env, fn, depth):
         lhs = self.ev(node.left, env, fn, depth)
         rhs = self.ev(node.right, env, fn, depth)
+        return self._arith(node.op, lhs, rhs, node)
+
+    def _arith(self, op, lhs, rhs, node=None):
+        """``lhs op rhs`` on values (shared by the operator syntax, ``operator.add`` ..., ``sum`` and ``reduce``)."""
+        if not isinstance(node, ast.BinOp):
+            node = ast.BinOp(left=ast.Constant(value=None), op=op, right=ast.Constant(value=None))
+        if isinstance(lhs, Opaque) and isinstance(lhs.key, str) and not isinstance(lhs.key, bool):
+            # string building: concatenation and %-formatting over constants
+            if isinstance(op, ast.Add) and isinstance(rhs, Opaque) and isinstance(rhs.key, str):
+                return Opaque(lhs.key + rhs.key)
+            if isinstance(op, ast.Mod):
+                try:
+                    return Opaque(lhs.key % self._to_py(rhs))
+                except TermEval.NotConst:
+                    raise ExtractionError(f"%-formatting of `{lhs.key}` with a value that is not a constant") from None
+                except (TypeError, ValueError) as exc:
+                    raise RaisedError(f"%-formatting of `{lhs.key}` raises {type(exc).__name__}") from None
+        if isinstance(op, (ast.BitAnd, ast.BitOr)) and isinstance(lhs, (Rel, Logic)) and isinstance(rhs, (Rel, Logic)):
+            return Logic("and" if isinstance(op, ast.BitAnd) else "or", [lhs, rhs])
+        if isinstance(lhs, Tup) and isinstance(rhs, Tup) and isinstance(op, ast.Add):
+            return Tup([*lhs.items, *rhs.items])  # concatenation of tuple / list values
+        if isinstance(lhs, frozenset) and isinstance(rhs, frozenset) and isinstance(op, (ast.Sub, ast.BitOr, ast.BitAnd, ast.BitXor)):
+            return {ast.Sub: lhs - rhs, ast.BitOr: lhs | rhs, ast.BitAnd: lhs & rhs, ast.BitXor: lhs ^ rhs}[type(op)]
         if isinstance(lhs, Mat) or isinstance(rhs, Mat):
             return self._mat_binop(node, lhs, rhs)
         lv, rv = self._rf(lhs, node.left), self._rf(rhs, node.right)
-        op = node.op
         if isinstance(op, ast.Add):
             return lv + rv
         if isinstance(op, ast.Sub):
@@ -292,7 +434,16 @@ class TermEval:
                 return lhs.matmul(rhs)
             if isinstance(op, (ast.Add, ast.Sub)):
                 f = (lambda a, b: a + b) if isinstance(op, ast.Add) else (lambda a, b: a - b)
+                if lhs.shape != rhs.shape:
+                    raise RaisedError(f"matrix sum of shapes {lhs.shape} and {rhs.shape} raises ShapeError")
                 return Mat([[f(a, b) for a, b in zip(r1, r2)] for r1, r2 in zip(lhs.rows, rhs.rows)])
+        # a scalar factor / divisor applies to every entry (`gamma * sp.Matrix(...)`, `m / 2`)
+        if isinstance(lhs, Mat) and isinstance(op, (ast.Mult, ast.Div)):
+            k = self._rf(rhs, node.right)
+            return Mat([[(e * k if isinstance(op, ast.Mult) else e / k) for e in r] for r in lhs.rows])
+        if isinstance(rhs, Mat) and isinstance(op, ast.Mult):
+            k = self._rf(lhs, node.left)
+            return Mat([[k * e for e in r] for r in rhs.rows])
         raise ExtractionError("matrix operation outside grammar")
 
     def _ev_Compare(self, node, env, fn, depth):
@@ -308,10 +459,7 @@ class TermEval:
         items = []
         for e in node.elts:
             if isinstance(e, ast.Starred):
-                v = self.ev(e.value, env, fn, depth)
-                if not isinstance(v, Tup):
-                    raise ExtractionError("starred non-tuple")
-                items.extend(v.items)
+                items.extend(self._sequence(self.ev(e.value, env, fn, depth), f"starred element `*{unparse(e.value)[:40]}`"))
             else:
                 items.append(self.ev(e, env, fn, depth))
         return Tup(items)
@@ -357,12 +505,19 @@ class TermEval:
                 if head in {"self", "cls"} and isinstance(base, dict) and len(rest) == 1 and rest[0] not in base and fn is not None:
                     target = self.tree.resolve(fn.module, node, fn)
                     if target in self.tree.funcs:  # a method of the class, not a field: the bound method
-                        static = any(unparse(d) == "staticmethod" for d in self.tree.funcs[target].node.decorator_list)
+                        decorators = {unparse(d) for d in self.tree.funcs[target].node.decorator_list}
+                        if decorators & {"property", "cached_property", "functools.cached_property"} and head == "self":
+                            if depth >= self.inline_depth:
+                                raise ExtractionError(f"inlining depth exceeded at {target}")
+                            return self.eval_function(self.tree.funcs[target], [base], {}, depth + 1)  # `self.tensors`: the property's value
+                        static = "staticmethod" in decorators
                         return Bound(target, None if static else base)
                 return self._attr_of(base, rest, node)
             if fn is not None:
                 target = self.tree.resolve(fn.module, node, fn)
                 if target:
+                    if target.startswith("string.") and isinstance(getattr(_string, target.split(".", 1)[1], None), str):
+                        return Opaque(getattr(_string, target.split(".", 1)[1]))  # string.ascii_lowercase ...
                     if target.startswith("sympy."):
                         name = target.split(".")[-1]
                         if name in SYMPY_CONSTANTS:
@@ -375,6 +530,8 @@ class TermEval:
                             return RF.const(Fraction(1, 2))
                         if name in {"NegativeOne"}:
                             return RF.const(-1)
+                        if name in {"true", "false"}:
+                            return Opaque(name == "true")
                     return Opaque(("ref", target))
         base = self.ev(node.value, env, fn, depth)
         return self._attr_of(base, [node.attr], node)
@@ -385,9 +542,31 @@ class TermEval:
                 if a in base:
                     base = base[a]
                     continue
+                bound = self._object_method(base, a)
+                if bound is not None:
+                    base = bound
+                    continue
                 raise ExtractionError(f"unknown attribute .{a} in `{unparse(node)}`")
             if isinstance(base, RF):
+                rec = self.record_of(base)
+                if rec is not None and a in dict(rec[1]):
+                    base = dict(rec[1])[a]
+                    continue
                 atom = self.single_atom(base)
+                if self.is_app(atom) and atom in self.apps and self.apps[atom].cls in self.classes:
+                    # `b = self.evaluate(); b.b01`: a field of an instance of a repo expression class is the value
+                    # the constructor was given (the decorator stores the sympified argument under the field's name)
+                    info = self.apps[atom]
+                    names = [f.name for f in self.classes[info.cls].sympy_fields]
+                    if a in names:
+                        base = info.args[names.index(a)]
+                        continue
+                    if a == "args":
+                        base = Tup(list(info.args))
+                        continue
+                    if a in info.kwargs:
+                        base = info.kwargs[a]
+                        continue
                 if atom is not None and isinstance(atom, (str, tuple)):
                     key = atom if not (isinstance(atom, tuple) and atom[0] == "sym") else atom[1]
                     base = RF.atom(("sym", ("attr", key, a)))
@@ -395,14 +574,33 @@ class TermEval:
             if isinstance(base, Opaque):
                 base = Opaque(("attr", base.key, a))
                 continue
+            if isinstance(base, Mat) and a == "T":
+                base = base.transpose()
+                continue
             raise ExtractionError(f"attribute .{a} of {type(base).__name__} in `{unparse(node)}`")
         return base
 
     def _ev_Subscript(self, node, env, fn, depth):
         base = self.ev(node.value, env, fn, depth)
+        if isinstance(base, Mat) and (isinstance(node.slice, ast.Slice) or (isinstance(node.slice, ast.Tuple) and any(isinstance(e, ast.Slice) for e in node.slice.elts))):
+            rows, cols, _ = self._mat_ranges(base, node.slice, env, fn, node)
+            return Mat([[base.rows[i][j] for j in cols] for i in rows])  # `m[1:, 1:]`, `m[0, :]`: the block (a matrix)
         if isinstance(node.slice, ast.Slice):
-            raise ExtractionError("slice")
+            # `letters[1:]`, `t[k : k + 2]`: a slice with constant bounds of a tuple / list / string value
+            try:
+                lo, hi, step = (None if b is None else self.const(b, env, fn) for b in (node.slice.lower, node.slice.upper, node.slice.step))
+            except TermEval.NotConst:
+                raise ExtractionError(f"slice `{unparse(node)[:50]}` with bounds that are not constants") from None
+            if not all(b is None or (isinstance(b, int) and not isinstance(b, bool)) for b in (lo, hi, step)) or step == 0:
+                raise ExtractionError(f"slice `{unparse(node)[:50]}` with bounds that are not integers")
+            if isinstance(base, Tup):
+                return Tup(base.items[lo:hi:step])
+            if isinstance(base, Opaque) and isinstance(base.key, str) and not isinstance(base.key, bool):
+                return Opaque(base.key[lo:hi:step])
+            raise ExtractionError(f"slice `{unparse(node)[:50]}` of a value that is not a tuple / list / string")
         idx = self.ev(node.slice, env, fn, depth)
+        if self.record_of(base) is not None and isinstance(idx, RF) and idx.is_const():
+            base = Tup(self._sequence(base, f"`{unparse(node)[:40]}`"))
         if isinstance(base, Tup):
             if isinstance(idx, RF) and idx.is_const():
                 return base.items[int(idx.const_value())]
@@ -414,6 +612,17 @@ class TermEval:
             raise ExtractionError("matrix index")
         if isinstance(base, dict) and isinstance(idx, RF) and idx.is_const():
             return base[int(idx.const_value())]
+        if isinstance(base, DictV):
+            found = base.get(idx)
+            if found is not None:
+                return found
+            try:
+                self._to_py(idx)
+                for k, _ in base.items:
+                    self._to_py(k)
+            except TermEval.NotConst:
+                raise ExtractionError(f"`{unparse(node)[:50]}`: the key is not among the entries of the dict value") from None
+            raise RaisedError(f"`{unparse(node)[:50]}` raises KeyError for these constants")
         idx_items = idx.items if isinstance(idx, Tup) else [idx]
         if isinstance(base, Opaque) and isinstance(base.key, tuple) and base.key[0] in {"ref", "attr"}:
             return RF.atom(("sym", ("attr", base.key, ("idx", tuple(vkey(i) for i in idx_items)))))
@@ -430,9 +639,83 @@ class TermEval:
             return self.ev(node.body if decided else node.orelse, env, fn, depth)
         raise ExtractionError("conditional expression")
 
+    def _ev_Lambda(self, node, env, fn, depth):
+        return Lam(node, env, fn)
+
+    def _ev_NamedExpr(self, node, env, fn, depth):
+        val = self.ev(node.value, env, fn, depth)
+        self._assign(node.target, val, env, fn, depth)
+        return val
+
+    def _ev_Set(self, node, env, fn, depth):
+        try:
+            return self.const(node, env, fn)
+        except TermEval.NotConst:
+            raise ExtractionError(f"outside term grammar: set display over terms `{unparse(node)[:50]}`") from None
+
+    def _ev_DictComp(self, node, env, fn, depth):
+        pairs = self._ev_GeneratorExp(ast.GeneratorExp(elt=ast.Tuple(elts=[node.key, node.value], ctx=ast.Load()), generators=node.generators), env, fn, depth)
+        items: list = []
+        for p in pairs.items:
+            k, v = p.items
+            items = [(a, b) for a, b in items if vkey(a) != vkey(k)] + [(k, v)]
+        return DictV(items)
+
     def _ev_BoolOp(self, node, env, fn, depth):
         vals = [self.ev(v, env, fn, depth) for v in node.values]
         return Opaque((type(node.op).__name__.lower(), tuple(vkey(v) for v in vals)))
+
+    def _mat_ranges(self, m: "Mat", index: ast.AST, env, fn, node) -> tuple[list, list, bool]:
+        """Row and column numbers that a matrix index `[i, j]` / `[a:b, c:d]` / `[i, c:d]` addresses (constants
+        only), and whether it names ONE entry."""
+        n_rows, n_cols = m.shape
+
+        def axis(part, n) -> tuple[list, bool]:
+            if isinstance(part, ast.Slice):
+                try:
+                    lo, hi, step = (None if b is None else self.const(b, env, fn) for b in (part.lower, part.upper, part.step))
+                except TermEval.NotConst:
+                    raise ExtractionError(f"matrix index `{unparse(node)[:50]}` with bounds that are not constants") from None
+                if not all(b is None or (isinstance(b, int) and not isinstance(b, bool)) for b in (lo, hi, step)) or step == 0:
+                    raise ExtractionError(f"matrix index `{unparse(node)[:50]}` with bounds that are not integers")
+                return list(range(n))[lo:hi:step], False
+            try:
+                k = self.const(part, env, fn)
+            except TermEval.NotConst:
+                raise ExtractionError(f"matrix index `{unparse(node)[:50]}` is not a constant") from None
+            if not isinstance(k, int) or isinstance(k, bool):
+                raise ExtractionError(f"matrix index `{unparse(node)[:50]}` is not an integer")
+            if not -n <= k < n:
+                raise RaisedError(f"`{unparse(node)[:50]}` raises IndexError")
+            return [k % n], True
+
+        if isinstance(index, ast.Tuple) and len(index.elts) == 2:
+            (rows, one_row), (cols, one_col) = axis(index.elts[0], n_rows), axis(index.elts[1], n_cols)
+            return rows, cols, one_row and one_col
+        raise ExtractionError(f"matrix index `{unparse(node)[:50]}` is not a pair `[rows, columns]`")
+
+    def _dim(self, v) -> int:
+        """A matrix dimension: a non-negative constant integer."""
+        if isinstance(v, RF) and v.is_const() and v.const_value().denominator == 1 and 0 <= v.const_value() <= 64:
+            return int(v.const_value())
+        raise ExtractionError("matrix dimension is not a small constant integer")
+
+    def _sequence(self, v, what: str) -> list:
+        """The elements, in iteration order, of a collection value of known length and order."""
+        if isinstance(v, Tup):
+            return list(v.items)
+        if isinstance(v, DictV):
+            return [k for k, _ in v.items]
+        rec = self.record_of(v)
+        if rec is not None and any(b.split(".")[-1] == "NamedTuple" for b in rec[0].bases):
+            return [x for _, x in rec[1]]
+        if isinstance(v, frozenset):
+            if len(v) <= 1:
+                return [self._from_py(x) for x in v]
+            raise ExtractionError(f"{what}: the iteration order of a set with {len(v)} elements is not determined")
+        if isinstance(v, Opaque) and isinstance(v.key, str) and not isinstance(v.key, bool):
+            return [Opaque(c) for c in v.key]
+        raise ExtractionError(f"{what}: not a collection of known length and order")
 
     def _ev_GeneratorExp(self, node, env, fn, depth):
         """A comprehension over collections of known length and order (tuple / list values): the tuple of its
@@ -455,8 +738,7 @@ class TermEval:
                     seq = self._from_py(self.const(g.iter, env_, fn))
                 except TermEval.NotConst:
                     raise exc from None
-            if not isinstance(seq, Tup):
-                raise ExtractionError(f"comprehension over `{unparse(g.iter)[:50]}`: not a collection of known length and order")
+            seq = Tup(self._sequence(seq, f"comprehension over `{unparse(g.iter)[:50]}`"))
             for item in seq.items:
                 env2 = dict(env_)
                 self._assign(g.target, item, env2, fn, depth)
@@ -509,10 +791,83 @@ class TermEval:
                 v = self.ev(func.value, env, fn, depth)
                 if isinstance(v, Mat):
                     return v.transpose()
+            if recv_known and func.attr in {"row_join", "col_join", "row", "col", "applyfunc", "multiply_elementwise", "dot"} and len(node.args) == 1 and not node.keywords:
+                try:
+                    v = self.ev(func.value, env, fn, depth)
+                except ExtractionError as exc:
+                    if isinstance(exc, RaisedError):
+                        raise
+                    v = None
+                if isinstance(v, Mat):
+                    arg = self.ev(node.args[0], env, fn, depth)
+                    if func.attr in {"row", "col"}:
+                        k = self._dim(arg) if isinstance(arg, RF) and arg.is_const() and arg.const_value() >= 0 else None
+                        if k is None or k >= (v.shape[0] if func.attr == "row" else v.shape[1]):
+                            raise ExtractionError(f"`{unparse(node)[:50]}`: row / column number is not a constant in range")
+                        return Mat([list(v.rows[k])]) if func.attr == "row" else Mat([[r[k]] for r in v.rows])
+                    if func.attr == "applyfunc":
+                        return Mat([[self._rf(self.apply(arg, [e], {}, env, fn, depth)) for e in r] for r in v.rows])
+                    if not isinstance(arg, Mat):
+                        raise ExtractionError(f"`{unparse(node)[:50]}`: the argument is not a matrix value")
+                    if func.attr == "row_join" and arg.shape[0] == v.shape[0]:
+                        return Mat([[*r1, *r2] for r1, r2 in zip(v.rows, arg.rows)])
+                    if func.attr == "col_join" and arg.shape[1] == v.shape[1]:
+                        return Mat([*[list(r) for r in v.rows], *[list(r) for r in arg.rows]])
+                    if func.attr == "multiply_elementwise" and arg.shape == v.shape:
+                        return Mat([[a * b for a, b in zip(r1, r2)] for r1, r2 in zip(v.rows, arg.rows)])
+                    if func.attr == "dot" and 1 in v.shape and 1 in arg.shape and max(v.shape) == max(arg.shape):
+                        xs = [e for r in v.rows for e in r]
+                        ys = [e for r in arg.rows for e in r]
+                        return sum((a * b for a, b in zip(xs, ys)), RF.const(0))
+                    raise RaisedError(f"`{unparse(node)[:50]}` raises ShapeError")
+            if recv_known and func.attr in {"copy", "as_mutable", "as_immutable", "as_explicit"} and not node.args and not node.keywords:
+                try:
+                    v = self.ev(func.value, env, fn, depth)
+                except ExtractionError as exc:
+                    if isinstance(exc, RaisedError):
+                        raise
+                    v = None
+                if isinstance(v, Mat):
+                    return Mat([list(r) for r in v.rows])  # a fresh matrix with the same entries
+            if func.attr in {"get", "items", "keys", "values", "copy", "format"} and (recv_known or isinstance(func.value, (ast.Constant, ast.JoinedStr, ast.Dict, ast.DictComp))):
+                try:
+                    recv = self.ev(func.value, env, fn, depth)
+                except ExtractionError as exc:
+                    if isinstance(exc, RaisedError):
+                        raise
+                    recv = None
+                if isinstance(recv, DictV) and func.attr != "format":
+                    return self._dict_method(recv, func.attr, node, env, fn, depth)
+                if isinstance(recv, Opaque) and isinstance(recv.key, str) and func.attr == "format":
+                    fargs, fkwargs = self._args(node, env, fn, depth)
+                    try:
+                        return Opaque(recv.key.format(*[self._to_py(a) for a in fargs], **{k: self._to_py(v) for k, v in fkwargs.items()}))
+                    except TermEval.NotConst:
+                        raise ExtractionError(f"`{unparse(node)[:60]}`: str.format over values that are not constants") from None
+                    except (IndexError, KeyError, ValueError) as exc:
+                        raise RaisedError(f"`{unparse(node)[:60]}` raises {type(exc).__name__}") from None
         args = None
         callee = None
         if fn is not None:
             callee = self.tree.resolve(fn.module, func, fn)
+        if isinstance(func, ast.Attribute) and isinstance(func.value, ast.Name) and func.value.id == "self" and isinstance(env.get("self"), dict):
+            # `self.m(...)` inside a method inherited from a base class: the method of the INSTANCE's class (template
+            # method pattern), when the abstract instance knows its class
+            klass = env["self"].get("__class__")
+            if isinstance(klass, Opaque) and isinstance(klass.key, tuple) and len(klass.key) == 2 and klass.key[0] == "ref" and klass.key[1] in self.tree.classes:
+                for c in self.tree.mro(self.tree.classes[klass.key[1]]):
+                    if func.attr in c.methods:
+                        callee = c.methods[func.attr].qual
+                        break
+                    alias = next((st for st in c.node.body if isinstance(st, ast.Assign) and any(isinstance(t, ast.Name) and t.id == func.attr for t in st.targets)), None)
+                    if alias is not None:
+                        # `_take_root = ComplexSqrt` in the class body: the attribute is that callable (a class or a
+                        # builtin is not bound to the instance; a plain function would be - outside the grammar)
+                        target = self.tree.resolve(c.module, alias.value)
+                        if target is None or target in self.tree.funcs:
+                            raise ExtractionError(f"class attribute `{func.attr}` of {c.qual} is not a class / external callable")
+                        args, kwargs = self._args(node, env, fn, depth)
+                        return self.apply(Opaque(("ref", target)), args, kwargs, env, fn, depth)
         # a callable held in the environment (parameter / field): opaque application
         if callee is None:
             # a call of a builtin / a method of a constant over constants (`"".join(map(str, ids))`, `len(t)`)
@@ -521,13 +876,45 @@ class TermEval:
                 return self._from_py(self.const(node, env, fn))
             except TermEval.NotConst:
                 pass
+            if isinstance(func, ast.Attribute) and func.attr in _TEXT_METHODS and not node.keywords and not any(isinstance(a, ast.Starred) for a in node.args):
+                # `text.strip()` / `.replace(a, b)` / `.splitlines()` ... of a string value with constant arguments: folded
+                try:
+                    text = self.ev(func.value, env, fn, depth)
+                except ExtractionError as exc:
+                    if isinstance(exc, RaisedError):
+                        raise
+                    text = None
+                if _is_text(text):
+                    try:
+                        targs = [self._to_py(self.ev(a, env, fn, depth)) for a in node.args]
+                    except TermEval.NotConst:
+                        raise ExtractionError(f"`{unparse(node)[:50]}`: string method with arguments that are not constants") from None
+                    try:
+                        out = getattr(text.key, func.attr)(*targs)
+                    except (TypeError, ValueError) as exc:
+                        raise RaisedError(f"`{unparse(node)[:50]}` raises {type(exc).__name__}") from None
+                    return self._from_py(tuple(out) if isinstance(out, list) else out)
+            if isinstance(func, ast.Attribute) and func.attr == "join" and len(node.args) == 1 and not node.keywords:
+                # `sep.join(<strings built from values>)`: the joined string (the parts may come from slices, zip, helpers ...)
+                try:
+                    sep = self.ev(func.value, env, fn, depth)
+                except ExtractionError as exc:
+                    if isinstance(exc, RaisedError):
+                        raise
+                    sep = None
+                if _is_text(sep):
+                    parts = self._sequence(self.ev(node.args[0], env, fn, depth), f"`{unparse(node)[:50]}`")
+                    if not all(_is_text(x) for x in parts):
+                        raise ExtractionError(f"`{unparse(node)[:50]}`: str.join over values that are not strings")
+                    return Opaque(sep.key.join(x.key for x in parts))
             fval = None
             try:
                 fval = self.ev(func, env, fn, depth)
             except ExtractionError:
                 fval = None
             known = isinstance(fval, Opaque) and isinstance(fval.key, tuple) and fval.key[0] == "ref" and (
-                fval.key[1] in self.tree.funcs or fval.key[1] in self.tree.classes or fval.key[1].startswith("sympy.")
+                fval.key[1] in self.tree.funcs or fval.key[1] in self.tree.classes or fval.key[1].startswith("sympy.") or _is_stdlib(fval.key[1])
+                or fval.key[1] in self.overrides  # a callable a rule gave a meaning to (e.g. an abstract protocol object)
             )
             if known:
                 callee = fval.key[1]
@@ -541,6 +928,12 @@ class TermEval:
                 if fval.recv is not None:
                     args = [fval.recv, *args]
                 return self.eval_function(self.tree.funcs[fval.func], args, kwargs, depth + 1)
+            elif isinstance(fval, (Lam, Partial)) or (isinstance(fval, dict) and self._object_method(fval, "__call__") is not None):
+                args, kwargs = self._args(node, env, fn, depth)
+                return self.apply(fval, args, kwargs, env, fn, depth)
+            elif fval is None and isinstance(func, ast.Name) and func.id in BUILTIN_FOLDS and func.id not in env:
+                args, kwargs = self._args(node, env, fn, depth)
+                return self._stdlib("builtins." + func.id, args, kwargs, env, fn, depth, node)
             elif fval is not None:
                 args = [self.ev(a, env, fn, depth) for a in node.args]
                 kwargs = {k.arg: self.ev(k.value, env, fn, depth) for k in node.keywords if k.arg}
@@ -549,16 +942,16 @@ class TermEval:
             return self.ev(node.args[0], env, fn, depth)  # the builtin conversion of a term: the term (as in `call`)
         if callee is None:
             raise ExtractionError(f"unresolved call `{unparse(node)[:70]}`")
+        if callee in self.module_values:
+            args, kwargs = self._args(node, env, fn, depth)
+            return self.apply(self.module_values[callee], args, kwargs, env, fn, depth)
         return self.call(callee, node, env, fn, depth)
 
     def _args(self, node, env, fn, depth):
         args = []
         for a in node.args:
             if isinstance(a, ast.Starred):
-                v = self.ev(a.value, env, fn, depth)
-                if not isinstance(v, Tup):
-                    raise ExtractionError("starred non-tuple argument")
-                args.extend(v.items)
+                args.extend(self._sequence(self.ev(a.value, env, fn, depth), f"starred argument `*{unparse(a.value)[:40]}`"))
             else:
                 args.append(self.ev(a, env, fn, depth))
         kwargs = {}
@@ -594,7 +987,22 @@ class TermEval:
             args, kwargs = self._args(node, env, fn, depth)
             if name == "ComplexSqrt":
                 return self.app("ComplexSqrt", args[:1])
-            return self.app(name, args, kwargs)
+            made = self.app(name, args, kwargs)
+            fields = self._record_fields(callee)
+            if fields is not None:
+                # a plain record (NamedTuple / dataclass / attrs class without converters or own constructor):
+                # its fields are the constructor arguments, so `pair.first`, `pair[0]` and `a, b = pair` are those values
+                names = [f for f, _ in fields]
+                if len(args) > len(names) or set(kwargs) - set(names) or set(names[: len(args)]) & set(kwargs):
+                    raise ExtractionError(f"{name}: arguments do not fit the fields {names}")
+                bound = {**dict(zip(names, args)), **kwargs}
+                for f, default in fields:
+                    if f not in bound:
+                        if default is None:
+                            raise ExtractionError(f"{name}: missing field {f}")
+                        bound[f] = self.ev(default, {}, None, depth) if isinstance(default, ast.Constant) else Opaque(("default", unparse(default)))
+                self.records[self.single_atom(made)] = (self.tree.classes[callee], [(f, bound[f]) for f in names])
+            return made
         if callee in self.tree.funcs:
             if depth >= self.inline_depth:
                 raise ExtractionError(f"inlining depth exceeded at {callee}")
@@ -616,7 +1024,259 @@ class TermEval:
             return self.eval_function(target, args, kwargs, depth + 1)
         if callee in {"builtins.float", "builtins.int"} or name in {"float", "int"} and "::" not in callee:
             return self.ev(node.args[0], env, fn, depth)
+        if _is_stdlib(callee):
+            args, kwargs = self._args(node, env, fn, depth)
+            return self._stdlib(callee, args, kwargs, env, fn, depth, node)
         raise ExtractionError(f"call of external `{callee}` outside grammar")
+
+    # ----------------------------------------------- callable values, stdlib folds
+    def apply(self, fval, args: list, kwargs: dict, env, fn, depth):
+        """The call of a callable VALUE (a lambda, a functools.partial, a bound method, a reference to a package
+        function / class / sympy constructor / operator.* held in a local or handed to map / reduce) on values."""
+        if isinstance(fval, Partial):
+            return self.apply(fval.func, [*fval.args, *args], {**fval.kwargs, **kwargs}, env, fn, depth)
+        if isinstance(fval, dict) and self._object_method(fval, "__call__") is not None:
+            fval = self._object_method(fval, "__call__")  # `obj(...)` is `obj.__call__(...)`
+        if isinstance(fval, Lam) and isinstance(fval.node, ast.FunctionDef):
+            # a nested `def` held as a value: its body on the bound parameters, in the environment it was written in
+            info = self.tree.funcs.get(f"{fval.fn.qual}.{fval.node.name}") if fval.fn is not None else None
+            if info is None:
+                raise ExtractionError(f"nested function `{fval.node.name}` is not indexed")
+            if depth >= self.inline_depth:
+                raise ExtractionError(f"inlining depth exceeded at {info.qual}")
+            return self.eval_body(fval.node.body, {**fval.env, **self.bind_params(info, args, kwargs)}, info, depth + 1)
+        if isinstance(fval, Lam):
+            a = fval.node.args
+            if a.vararg or a.kwarg or a.kwonlyargs or a.posonlyargs or a.defaults:
+                raise ExtractionError(f"`{unparse(fval.node)[:50]}`: lambda with star / keyword-only / default parameters")
+            names = [p.arg for p in a.args]
+            if len(args) > len(names):
+                raise ExtractionError(f"`{unparse(fval.node)[:50]}`: too many arguments")
+            bound = dict(zip(names, args))
+            for k, v in kwargs.items():
+                if k in bound or k not in names:
+                    raise ExtractionError(f"`{unparse(fval.node)[:50]}`: argument {k} given twice / unknown")
+                bound[k] = v
+            if len(bound) != len(names):
+                raise ExtractionError(f"`{unparse(fval.node)[:50]}`: missing arguments")
+            return self.ev(fval.node.body, {**fval.env, **bound}, fval.fn, depth)
+        if isinstance(fval, Bound):
+            if depth >= self.inline_depth:
+                raise ExtractionError(f"inlining depth exceeded at {fval.func}")
+            if fval.func in self.overrides:
+                return self.overrides[fval.func](self, args, kwargs)
+            if fval.recv is not None:
+                args = [fval.recv, *args]
+            return self.eval_function(self.tree.funcs[fval.func], args, kwargs, depth + 1)
+        if isinstance(fval, Opaque) and isinstance(fval.key, tuple) and len(fval.key) == 2 and fval.key[0] == "ref":
+            target = fval.key[1]
+            if target in self.overrides or target in self.tree.funcs or target in self.tree.classes or target.startswith("sympy.") or _is_stdlib(target):
+                # the call `target(<arg 0>, ..., k=<kw k>)` with the values held under names no program can spell
+                env2 = dict(env)
+                pos, kws = [], []
+                for i, v in enumerate(args):
+                    env2[f"<arg {i}>"] = v
+                    pos.append(ast.Name(id=f"<arg {i}>", ctx=ast.Load()))
+                for k, v in kwargs.items():
+                    env2[f"<kw {k}>"] = v
+                    kws.append(ast.keyword(arg=k, value=ast.Name(id=f"<kw {k}>", ctx=ast.Load())))
+                call = ast.Call(func=ast.Name(id=target.split(".")[-1].split("::")[-1], ctx=ast.Load()), args=pos, keywords=kws)
+                return self.call(target, call, env2, fn, depth)
+        raise ExtractionError(f"call of a value that is not a known callable: {fval!r:.60}")
+
+    def _expand_starred(self, node: ast.Call, env, fn, depth):
+        """``f(a, *t)`` with a tuple value ``t``: the call with the elements as positional arguments (the values are
+        held under names no program can spell, so every call form sees plain arguments)."""
+        env2 = dict(env)
+        pos = []
+        for n, a in enumerate(node.args):
+            if not isinstance(a, ast.Starred):
+                pos.append(a)
+                continue
+            items = self._sequence(self.ev(a.value, env, fn, depth), f"`*{unparse(a.value)[:40]}`")
+            for i, v in enumerate(items):
+                env2[f"<star {n}.{i}>"] = v
+                pos.append(ast.Name(id=f"<star {n}.{i}>", ctx=ast.Load()))
+        return ast.copy_location(ast.Call(func=node.func, args=pos, keywords=node.keywords), node), env2
+
+    def _dict_method(self, d: "DictV", attr: str, node: ast.Call, env, fn, depth):
+        if attr == "items" and not node.args:
+            return Tup([Tup([k, v]) for k, v in d.items])
+        if attr == "keys" and not node.args:
+            return Tup([k for k, _ in d.items])
+        if attr == "values" and not node.args:
+            return Tup([v for _, v in d.items])
+        if attr == "copy" and not node.args:
+            return DictV(list(d.items))
+        if attr == "get" and 1 <= len(node.args) <= 2 and not node.keywords:
+            key = self.ev(node.args[0], env, fn, depth)
+            found = d.get(key)
+            if found is not None:
+                return found
+            try:
+                self._to_py(key)
+                for k, _ in d.items:
+                    self._to_py(k)
+            except TermEval.NotConst:
+                raise ExtractionError(f"`{unparse(node)[:50]}`: the key is not among the entries of the dict value") from None
+            return self.ev(node.args[1], env, fn, depth) if len(node.args) == 2 else Opaque(None)
+        raise ExtractionError(f"dict method `{unparse(node)[:50]}` outside grammar")
+
+    def _stdlib(self, name: str, args: list, kwargs: dict, env, fn, depth, node=None):
+        """Standard-library callables folded over values: the result is the term the written-out code would build."""
+        mod, _, short = name.rpartition(".")
+        seq = lambda v, i=0: self._sequence(v, f"{name}(...) argument {i + 1}")  # noqa: E731
+        if mod in {"operator", "_operator"}:
+            if short in STDLIB_ARITH and len(args) == 2:
+                return self._arith(STDLIB_ARITH[short](), args[0], args[1])
+            if short in STDLIB_REL and len(args) == 2:
+                return Rel(STDLIB_REL[short], args[0], args[1])
+            if short == "neg" and len(args) == 1:
+                return -self._rf(args[0])
+            if short == "pos" and len(args) == 1:
+                return args[0]
+        if name == "functools.partial" and args:
+            return Partial(args[0], list(args[1:]), dict(kwargs))
+        if name == "functools.reduce" and 2 <= len(args) <= 3 and not kwargs:
+            items = seq(args[1], 1)
+            if len(args) == 3:
+                acc = args[2]
+            elif items:
+                acc, items = items[0], items[1:]
+            else:
+                raise RaisedError("functools.reduce of an empty collection without initial value raises TypeError")
+            for x in items:
+                acc = self.apply(args[0], [acc, x], {}, env, fn, depth)
+            return acc
+        if name in {"builtins.sum", "math.prod"} and 1 <= len(args) <= 2 and set(kwargs) <= {"start"}:
+            neutral = RF.const(0 if short == "sum" else 1)
+            acc = args[1] if len(args) == 2 else kwargs.get("start", neutral)
+            for x in seq(args[0]):
+                acc = self._arith(ast.Add() if short == "sum" else ast.Mult(), acc, x)
+            return acc
+        if name == "builtins.map" and len(args) >= 2 and not kwargs:
+            return Tup([self.apply(args[0], list(row), {}, env, fn, depth) for row in zip(*[seq(a, i + 1) for i, a in enumerate(args[1:])])])
+        if name == "itertools.starmap" and len(args) == 2 and not kwargs:
+            return Tup([self.apply(args[0], seq(row, 1), {}, env, fn, depth) for row in seq(args[1], 1)])
+        if name == "builtins.zip" and set(kwargs) <= {"strict"}:
+            cols = [seq(a, i) for i, a in enumerate(args)]
+            if len({len(c) for c in cols}) > 1 and "strict" in kwargs:
+                raise ExtractionError("zip(..., strict=...) over collections of different length")
+            return Tup([Tup(list(row)) for row in zip(*cols)])
+        if name == "itertools.zip_longest" and set(kwargs) <= {"fillvalue"}:
+            cols = [seq(a, i) for i, a in enumerate(args)]
+            fill = kwargs.get("fillvalue", Opaque(None))
+            width = max((len(c) for c in cols), default=0)
+            return Tup([Tup([c[i] if i < len(c) else fill for c in cols]) for i in range(width)])
+        if name == "builtins.enumerate" and 1 <= len(args) <= 2 and set(kwargs) <= {"start"}:
+            start = args[1] if len(args) == 2 else kwargs.get("start", RF.const(0))
+            try:
+                first = int(self._to_py(start))
+            except (TermEval.NotConst, TypeError, ValueError):
+                raise ExtractionError("enumerate with a start that is not a constant") from None
+            return Tup([Tup([RF.const(first + i), x]) for i, x in enumerate(seq(args[0]))])
+        if name == "builtins.reversed" and len(args) == 1 and not kwargs:
+            return Tup(list(reversed(seq(args[0]))))
+        if name in {"builtins.tuple", "builtins.list"} and len(args) <= 1 and not kwargs:
+            return Tup(seq(args[0]) if args else [])
+        if name == "builtins.len" and len(args) == 1 and not kwargs:
+            return RF.const(len(seq(args[0])))
+        if name == "builtins.dict" and len(args) <= 1:
+            items: list = []
+            if args and isinstance(args[0], DictV):
+                items = list(args[0].items)
+            elif args:
+                for pair in seq(args[0]):
+                    k, v = seq(pair)
+                    items = [(a, b) for a, b in items if vkey(a) != vkey(k)] + [(k, v)]
+            for k, v in kwargs.items():
+                items = [(a, b) for a, b in items if vkey(a) != vkey(Opaque(k))] + [(Opaque(k), v)]
+            return DictV(items)
+        if name == "itertools.chain" and not kwargs:
+            return Tup([x for i, a in enumerate(args) for x in seq(a, i)])
+        if name == "itertools.chain.from_iterable" and len(args) == 1 and not kwargs:
+            return Tup([x for a in seq(args[0]) for x in seq(a)])
+        if name == "itertools.product" and set(kwargs) <= {"repeat"}:
+            import itertools
+
+            try:
+                repeat = int(self._to_py(kwargs["repeat"])) if "repeat" in kwargs else 1
+            except (TermEval.NotConst, TypeError, ValueError):
+                raise ExtractionError("itertools.product with a repeat that is not a constant") from None
+            return Tup([Tup(list(row)) for row in itertools.product(*[seq(a, i) for i, a in enumerate(args)], repeat=repeat)])
+        if name in {"itertools.combinations", "itertools.permutations"} and 1 <= len(args) <= 2 and not kwargs:
+            import itertools
+
+            try:
+                r = [int(self._to_py(args[1]))] if len(args) == 2 else []
+            except (TermEval.NotConst, TypeError, ValueError):
+                raise ExtractionError(f"{name} with a length that is not a constant") from None
+            if name.endswith("combinations") and not r:
+                raise ExtractionError("itertools.combinations without a length")
+            return Tup([Tup(list(row)) for row in getattr(itertools, short)(seq(args[0]), *r)])
+        raise ExtractionError(f"call of external `{name}` outside grammar" + (f": `{unparse(node)[:60]}`" if node is not None else ""))
+
+    def _record_fields(self, cls_qual: str):
+        """[(field, default expression | None)] in declaration order if the class is a plain record - a
+        typing.NamedTuple, a @dataclass or an attrs class whose fields are bare annotations or have constant / name
+        defaults (no converters, validators, factories) and that defines no constructor hook - else None."""
+        cls = self.tree.classes[cls_qual]
+        bases = [b.split(".")[-1] for b in cls.bases]
+        decorators = {d.split(".")[-1].split("::")[-1] for d, _ in cls.decorators}
+        is_tuple = "NamedTuple" in bases
+        if not (is_tuple and len(bases) == 1) and not (decorators & {"dataclass", "define", "frozen", "mutable"} and not [b for b in bases if b != "object"]):
+            return None
+        if {"__init__", "__new__", "__post_init__", "__attrs_post_init__", "__attrs_pre_init__"} & set(cls.methods):
+            return None
+        fields = []
+        for st in cls.node.body:
+            if isinstance(st, ast.AnnAssign) and isinstance(st.target, ast.Name):
+                if "ClassVar" in unparse(st.annotation):
+                    continue
+                if st.value is not None and not isinstance(st.value, (ast.Constant, ast.Name, ast.Attribute)):
+                    return None
+                fields.append((st.target.id, st.value))
+            elif isinstance(st, ast.Assign):
+                return None
+        return fields
+
+    def record_of(self, v):
+        """(class, [(field, value)]) if the value is a plain record object built by this evaluator."""
+        if isinstance(v, RF):
+            atom = self.single_atom(v)
+            if atom is not None and atom in self.records:
+                return self.records[atom]
+        return None
+
+    def new_object(self, cls_qual: str, args: list, kwargs: dict, depth: int = 0) -> dict:
+        """An OBJECT value of a plain repo class (opt-in: a rule installs it as the override of the class): the struct
+        of the attributes that ``__init__`` stores on ``self`` (``self.x = v``, in place), tagged with its class, so
+        that ``obj.x`` reads the attribute, ``obj.method`` is the bound method and ``obj(...)`` is ``obj.__call__(...)``
+        - whether the object is built with keywords, positionally, through ``**options`` or ``functools.partial``."""
+        obj: dict = {"__class__": Opaque(("ref", cls_qual))}
+        init = self.tree.lookup_method(self.tree.classes[cls_qual], "__init__")
+        if init is None:
+            if args or kwargs:
+                raise ExtractionError(f"{cls_qual}: constructor arguments but no __init__ in the package")
+            return obj
+        try:
+            self.eval_function(init, [obj, *args], kwargs, depth + 1)
+        except NoReturn:
+            pass
+        else:
+            raise ExtractionError(f"{cls_qual}.__init__ returns a value")
+        return obj
+
+    def _object_method(self, obj: dict, name: str):
+        """The bound method ``obj.<name>`` of an object value (None if ``obj`` is not one or has no such method)."""
+        tag = obj.get("__class__")
+        if not (isinstance(tag, Opaque) and isinstance(tag.key, tuple) and len(tag.key) == 2 and tag.key[0] == "ref" and tag.key[1] in self.tree.classes):
+            return None
+        m = self.tree.lookup_method(self.tree.classes[tag.key[1]], name)
+        if m is None:
+            return None
+        static = any(unparse(d) == "staticmethod" for d in m.node.decorator_list)
+        return Bound(m.qual, None if static else obj)
 
     def construct(self, cls_qual: str, args: list, kwargs: dict) -> RF:
         cls = self.classes[cls_qual]
@@ -658,16 +1318,31 @@ class TermEval:
         return self.app(cls_qual, ordered, extra)
 
     def _sympy_call(self, name: str, node: ast.Call, env, fn, depth):
+        if any(isinstance(a, ast.Starred) for a in node.args) and name not in {"Mul", "Add"}:
+            node, env = self._expand_starred(node, env, fn, depth)  # `sp.Piecewise(*branches)`
         if name == "sqrt":
             return sqrt(self._rf(self.ev(node.args[0], env, fn, depth), node.args[0]))
         if name in {"Symbol", "Dummy", "IndexedBase", "MatrixSymbol", "Wild"}:
             nm = self.ev(node.args[0], env, fn, depth) if node.args else Opaque(f"_dummy{id(node)}")
             if not (isinstance(nm, Opaque) and isinstance(nm.key, str)):
                 raise ExtractionError(f"symbol name not constant: `{unparse(node)}`")
-            self.symbol_assumptions[nm.key] = {k.arg: unparse(k.value) for k in node.keywords if k.arg and k.arg != "shape"}
+            assumptions = {k.arg: unparse(k.value) for k in node.keywords if k.arg and k.arg != "shape"}
+            for k in node.keywords:
+                if k.arg is None:
+                    # `sp.Symbol(name, **assumptions)`: the entries of the dict value, read like explicit keywords
+                    mapping = self.ev(k.value, env, fn, depth)
+                    if not (isinstance(mapping, DictV) and all(isinstance(kk, Opaque) and isinstance(kk.key, str) for kk, _ in mapping.items)):
+                        raise ExtractionError(f"`{unparse(node)[:60]}`: **assumptions that are not a dict display with constant keys")
+                    for kk, vv in mapping.items:
+                        assumptions[kk.key] = str(vv.key) if isinstance(vv, Opaque) and isinstance(vv.key, bool) else repr(vv)
+            self.symbol_assumptions[nm.key] = assumptions
+            # every construction of that name, in order (two sites that disagree are both kept)
+            self.symbol_constructions.setdefault(nm.key, []).append((name, dict(assumptions)))
             return RF.atom(nm.key)
         if name == "symbols":
             nm = self.ev(node.args[0], env, fn, depth)
+            if isinstance(nm, Tup) and all(isinstance(x, Opaque) and isinstance(x.key, str) for x in nm.items):
+                nm = Opaque(",".join(x.key for x in nm.items) + ",")  # a sequence of names: always a tuple of symbols
             if not (isinstance(nm, Opaque) and isinstance(nm.key, str)):
                 raise ExtractionError("symbols() with non-constant names")
             names = expand_symbols(nm.key)
@@ -681,6 +1356,13 @@ class TermEval:
             return self._rf(args[0]) / self._rf(args[1])
         if name in {"Integer", "Float", "sympify", "S", "nsimplify", "_sympify", "UnevaluatedExpr"}:
             return self.ev(node.args[0], env, fn, depth)
+        if name in {"expand", "simplify", "factor", "together", "cancel", "radsimp", "expand_mul", "collect", "powsimp", "ratsimp"} and node.args:
+            return self.ev(node.args[0], env, fn, depth)  # rewriting functions: the same value
+        if name in {"Not", "And", "Or"} and node.args and not node.keywords:
+            vals = [self.ev(a, env, fn, depth) for a in node.args]
+            if all(isinstance(v, (Rel, Logic)) or (isinstance(v, Opaque) and isinstance(v.key, bool)) for v in vals) and (name != "Not" or len(vals) == 1):
+                return Logic(name.lower(), vals)
+            raise ExtractionError(f"sympy.{name} over values that are not relations")
         if name in {"Mul", "Add"}:
             vals = [self._rf(self.ev(a, env, fn, depth), a) for a in node.args if not isinstance(a, ast.Starred)]
             for a in node.args:
@@ -706,9 +1388,63 @@ class TermEval:
             return PW(branches)
         if name in {"Matrix", "ImmutableMatrix", "MutableDenseMatrix"}:
             v = self.ev(node.args[0], env, fn, depth)
-            if isinstance(v, Tup) and all(isinstance(r, Tup) for r in v.items):
+            if len(node.args) == 1 and isinstance(v, Mat):
+                return Mat([list(r) for r in v.rows])  # a copy
+            if len(node.args) == 1 and isinstance(v, Tup) and v.items and all(isinstance(r, Tup) for r in v.items):
+                if len({len(r.items) for r in v.items}) != 1:
+                    raise RaisedError("Matrix literal with rows of different length raises ValueError")
                 return Mat([[self._rf(e) for e in r.items] for r in v.items])
+            if len(node.args) == 1 and isinstance(v, Tup) and v.items and not any(isinstance(r, (Tup, Mat)) for r in v.items):
+                return Mat([[self._rf(e)] for e in v.items])  # a flat list is a column vector
+            if len(node.args) == 3:
+                # Matrix(rows, cols, f) / Matrix(rows, cols, flat list)
+                n_rows, n_cols = self._dim(v), self._dim(self.ev(node.args[1], env, fn, depth))
+                third = self.ev(node.args[2], env, fn, depth)
+                if isinstance(third, Tup):
+                    if len(third.items) != n_rows * n_cols:
+                        raise RaisedError("Matrix(rows, cols, list) with a list of the wrong length raises ValueError")
+                    return Mat([[self._rf(third.items[i * n_cols + j]) for j in range(n_cols)] for i in range(n_rows)])
+                return Mat([[self._rf(self.apply(third, [RF.const(i), RF.const(j)], {}, env, fn, depth)) for j in range(n_cols)] for i in range(n_rows)])
             raise ExtractionError("Matrix literal shape")
+        if name in {"hstack", "vstack"} and node.args and not node.keywords:
+            blocks = []
+            for a in node.args:
+                blocks.extend(self._sequence(self.ev(a.value, env, fn, depth), f"sp.Matrix.{name}(*blocks)") if isinstance(a, ast.Starred) else [self.ev(a, env, fn, depth)])
+            if not all(isinstance(b, Mat) for b in blocks):
+                raise ExtractionError(f"Matrix.{name} over values that are not matrices")
+            if name == "hstack":
+                if len({b.shape[0] for b in blocks}) != 1:
+                    raise RaisedError("Matrix.hstack of blocks with different numbers of rows raises ShapeError")
+                return Mat([[e for b in blocks for e in b.rows[i]] for i in range(blocks[0].shape[0])])
+            if len({b.shape[1] for b in blocks}) != 1:
+                raise RaisedError("Matrix.vstack of blocks with different numbers of columns raises ShapeError")
+            return Mat([list(r) for b in blocks for r in b.rows])
+        if name in {"eye", "zeros", "ones"} and 1 <= len(node.args) <= 2 and not node.keywords:
+            # sp.eye(4) / sp.zeros(4) / sp.ones(2, 3): fresh mutable matrices, usually completed by item assignment
+            dims = [self._dim(self.ev(a, env, fn, depth)) for a in node.args]
+            n_rows, n_cols = dims[0], dims[-1]
+            fill = {"eye": lambda i, j: int(i == j), "zeros": lambda i, j: 0, "ones": lambda i, j: 1}[name]
+            return Mat([[RF.const(fill(i, j)) for j in range(n_cols)] for i in range(n_rows)])
+        if name == "diag" and node.args and not node.keywords:
+            # sp.diag(1, -1, -1, -1): scalars (and matrix blocks) along the diagonal, zeros elsewhere
+            blocks = []
+            for a in node.args:
+                if isinstance(a, ast.Starred):
+                    blocks.extend(self._sequence(self.ev(a.value, env, fn, depth), "sp.diag(*entries)"))
+                else:
+                    blocks.append(self.ev(a, env, fn, depth))
+            if any(isinstance(b, (Tup, DictV)) for b in blocks):
+                raise ExtractionError("sp.diag over list / dict arguments")
+            blocks = [b if isinstance(b, Mat) else Mat([[self._rf(b)]]) for b in blocks]
+            n_rows, n_cols = sum(b.shape[0] for b in blocks), sum(b.shape[1] for b in blocks)
+            out = [[RF.const(0) for _ in range(n_cols)] for _ in range(n_rows)]
+            r0 = c0 = 0
+            for b in blocks:
+                for i, r in enumerate(b.rows):
+                    for j, e in enumerate(r):
+                        out[r0 + i][c0 + j] = e
+                r0, c0 = r0 + b.shape[0], c0 + b.shape[1]
+            return Mat(out)
         if name in {"Tuple"}:
             return Tup([self.ev(a, env, fn, depth) for a in node.args])
         if name in RELATIONALS:
@@ -763,14 +1499,70 @@ class TermEval:
         if isinstance(node, ast.Name):
             if node.id in env:
                 return self._to_py(env[node.id])
+            if fn is not None:
+                target = self.tree.resolve(fn.module, node, fn)
+                table = self._module_table(target) if target else None
+                if table is not None:
+                    return table
             raise NC
         if isinstance(node, ast.Attribute) and isinstance(node.value, ast.Name) and isinstance(env.get(node.value.id), dict):
             struct = env[node.value.id]
             if node.attr in struct:
                 return self._to_py(struct[node.attr])
             raise NC
-        if isinstance(node, ast.Tuple):
-            return tuple(self.const(e, env, fn, depth) for e in node.elts)
+        if isinstance(node, (ast.Tuple, ast.List)):
+            out = []
+            for e in node.elts:
+                if isinstance(e, ast.Starred):
+                    out.extend(self.const(e.value, env, fn, depth))
+                else:
+                    out.append(self.const(e, env, fn, depth))
+            return tuple(out)
+        if isinstance(node, ast.UnaryOp) and isinstance(node.op, ast.USub):
+            v = self.const(node.operand, env, fn, depth)
+            if isinstance(v, int) and not isinstance(v, bool):
+                return -v
+            raise NC
+        if isinstance(node, ast.IfExp):
+            return self.const(node.body if self.const(node.test, env, fn, depth) else node.orelse, env, fn, depth)
+        if isinstance(node, ast.Subscript) and not isinstance(node.slice, ast.Slice):
+            base, idx = self.const(node.value, env, fn, depth), self.const(node.slice, env, fn, depth)
+            if isinstance(base, (tuple, str)) and isinstance(idx, int) and not isinstance(idx, bool) and -len(base) <= idx < len(base):
+                return base[idx]
+            raise NC
+        if isinstance(node, (ast.GeneratorExp, ast.ListComp, ast.SetComp)):
+            # a comprehension over constant collections with constant filters: the tuple (set) of its elements
+            found: list = []
+
+            def bind(target, item, env_):
+                if isinstance(target, ast.Name):
+                    env_[target.id] = self._from_py(item)
+                elif isinstance(target, (ast.Tuple, ast.List)) and isinstance(item, tuple) and len(item) == len(target.elts):
+                    for t, x in zip(target.elts, item):
+                        bind(t, x, env_)
+                else:
+                    raise NC
+
+            def rec(gens, env_):
+                if not gens:
+                    found.append(self.const(node.elt, env_, fn, depth))
+                    return
+                g = gens[0]
+                coll = self.const(g.iter, env_, fn, depth)
+                if not isinstance(coll, (tuple, frozenset, str)) or g.is_async:
+                    raise NC
+                if isinstance(coll, frozenset) and len(coll) > 1 and not isinstance(node, ast.SetComp):
+                    if not all(isinstance(x, int) and 0 <= x < 8 for x in coll):
+                        raise NC  # iteration order of a set: only small ints iterate in a determined (ascending) order
+                    coll = tuple(sorted(coll))
+                for item in coll:
+                    env2 = dict(env_)
+                    bind(g.target, item, env2)
+                    if all(self.const(c, env2, fn, depth) for c in g.ifs):
+                        rec(gens[1:], env2)
+
+            rec(list(node.generators), env)
+            return frozenset(found) if isinstance(node, ast.SetComp) else tuple(found)
         if isinstance(node, ast.Set):
             return frozenset(self.const(e, env, fn, depth) for e in node.elts)
         if isinstance(node, ast.UnaryOp) and isinstance(node.op, ast.Not):
@@ -791,6 +1583,15 @@ class TermEval:
                 return {ast.Add: a + b, ast.Sub: a - b, ast.Mult: a * b}[type(node.op)]
             if isinstance(a, int) and isinstance(b, int) and b != 0 and isinstance(node.op, (ast.Mod, ast.FloorDiv)):
                 return a % b if isinstance(node.op, ast.Mod) else a // b
+            if isinstance(a, str) and isinstance(b, str) and isinstance(node.op, ast.Add):
+                return a + b
+            if isinstance(a, tuple) and isinstance(b, tuple) and isinstance(node.op, ast.Add):
+                return a + b
+            if isinstance(a, str) and isinstance(node.op, ast.Mod) and isinstance(b, (int, str, tuple)):
+                try:
+                    return a % b
+                except (TypeError, ValueError):
+                    raise NC from None
             raise NC
         if isinstance(node, ast.Compare) and len(node.ops) == 1 and isinstance(node.ops[0], (ast.Is, ast.IsNot)) and isinstance(node.comparators[0], ast.Constant) and node.comparators[0].value is None and isinstance(node.left, ast.Name) and node.left.id in env:
             # `x is None` for a name bound to a term value (a symbol, an expression): decided - it is not None
@@ -835,6 +1636,15 @@ class TermEval:
             f = node.func
             if isinstance(f, ast.Name) and f.id == "sorted" and len(node.args) == 1 and len(node.keywords) == 1 and node.keywords[0].arg == "reverse" and isinstance(node.keywords[0].value, ast.Constant):
                 return tuple(sorted(self.const(node.args[0], env, fn, depth), reverse=bool(node.keywords[0].value.value)))
+            if isinstance(f, ast.Name) and f.id in {"map", "filter"} and f.id not in env and len(node.args) == 2 and not node.keywords and isinstance(node.args[0], ast.Lambda):
+                lam = node.args[0]
+                if len(lam.args.args) != 1 or lam.args.vararg or lam.args.kwarg or lam.args.kwonlyargs or lam.args.defaults:
+                    raise NC
+                coll = self.const(node.args[1], env, fn, depth)
+                if not isinstance(coll, (tuple, str)):
+                    raise NC
+                images = [self.const(lam.body, {**env, lam.args.args[0].arg: self._from_py(x)}, fn, depth) for x in coll]
+                return tuple(images) if f.id == "map" else tuple(x for x, keep in zip(coll, images) if keep)
             if isinstance(f, ast.Name) and f.id in {"sorted", "tuple", "list", "set", "frozenset", "str", "int", "len", "next", "iter", "map"} and not node.keywords:
                 args = [self.const(a, env, fn, depth) if not (f.id == "map" and i == 0) else a for i, a in enumerate(node.args)]
                 if f.id == "sorted":
@@ -855,22 +1665,62 @@ class TermEval:
                     seq = args[0]
                     if isinstance(seq, frozenset):
                         seq = tuple(sorted(seq))
+                    if isinstance(args[0], tuple) and seq:
+                        return seq[0]  # an ordered collection: its first element
                     if len(seq) != 1:
                         raise ExtractionError("next(iter(...)) of a constant collection that is not a singleton: the picked element is not determined")
                     return seq[0]
                 if f.id == "map" and isinstance(node.args[0], ast.Name) and node.args[0].id == "str":
                     return tuple(str(x) for x in args[1])
                 raise NC
+            if isinstance(f, ast.Attribute) and f.attr == "pop" and not node.args and not node.keywords and not isinstance(f.value, ast.Name):
+                coll = self.const(f.value, env, fn, depth)  # `(S - {i, j}).pop()` on a temporary one-element set
+                if isinstance(coll, frozenset) and len(coll) == 1:
+                    return next(iter(coll))
+                raise NC
             if isinstance(f, ast.Attribute) and f.attr == "join" and len(node.args) == 1:
                 sep = self.const(f.value, env, fn, depth)
-                return sep.join(self.const(node.args[0], env, fn, depth))
+                parts = self.const(node.args[0], env, fn, depth)
+                if not isinstance(sep, str) or not isinstance(parts, tuple) or not all(isinstance(x, str) for x in parts):
+                    raise NC
+                return sep.join(parts)
+            if isinstance(f, ast.Attribute) and f.attr == "format" and isinstance(f.value, (ast.Constant, ast.JoinedStr, ast.Name)):
+                template = self.const(f.value, env, fn, depth)
+                if not isinstance(template, str) or any(k.arg is None for k in node.keywords) or any(isinstance(a, ast.Starred) for a in node.args):
+                    raise NC
+                try:
+                    return template.format(*[self.const(a, env, fn, depth) for a in node.args], **{k.arg: self.const(k.value, env, fn, depth) for k in node.keywords})
+                except (IndexError, KeyError, ValueError):
+                    raise NC from None
+            if isinstance(f, ast.Name) and f.id not in env and f.id in {"range", "min", "max", "sum", "reversed", "enumerate", "zip", "any", "all", "abs"} and not node.keywords:
+                cargs = [self.const(a, env, fn, depth) for a in node.args]
+                if f.id == "range" and 1 <= len(cargs) <= 3 and all(isinstance(x, int) and not isinstance(x, bool) for x in cargs) and (len(cargs) < 3 or cargs[2] != 0):
+                    return tuple(range(*cargs))
+                if f.id in {"reversed", "enumerate"} and len(cargs) == 1 and isinstance(cargs[0], (tuple, str)):
+                    return tuple(reversed(cargs[0])) if f.id == "reversed" else tuple(enumerate(cargs[0]))
+                if f.id == "zip" and cargs and all(isinstance(x, (tuple, str)) for x in cargs):
+                    return tuple(zip(*cargs))
+                if f.id in {"min", "max", "sum", "any", "all"} and len(cargs) == 1 and isinstance(cargs[0], (tuple, frozenset)) and all(isinstance(x, int) for x in cargs[0]) and (cargs[0] or f.id in {"sum", "any", "all"}):
+                    return {"min": min, "max": max, "sum": sum, "any": any, "all": all}[f.id](cargs[0])
+                if f.id in {"min", "max"} and len(cargs) >= 2 and all(isinstance(x, int) for x in cargs):
+                    return {"min": min, "max": max}[f.id](cargs)
+                if f.id == "abs" and len(cargs) == 1 and isinstance(cargs[0], int):
+                    return abs(cargs[0])
+                raise NC
             if fn is not None and depth < 4:
                 callee = self.tree.resolve(fn.module, f, fn)
                 if callee in self.tree.funcs:
                     g = self.tree.funcs[callee]
                     if all(isinstance(st, (ast.Assign, ast.Return, ast.Expr)) for st in g.node.body):
+                        if any(isinstance(a, ast.Starred) for a in node.args) or any(k.arg is None for k in node.keywords):
+                            raise NC
                         cargs = [self.const(a, env, fn, depth) for a in node.args]
-                        cenv = {p: (RF.const(v) if isinstance(v, int) and not isinstance(v, bool) else Opaque(v) if isinstance(v, (str, bool)) or v is None else v) for p, v in zip(g.params, cargs)}
+                        named = dict(zip(g.params, cargs))
+                        for k in node.keywords:
+                            if k.arg in named or k.arg not in g.params:
+                                raise NC
+                            named[k.arg] = self.const(k.value, env, fn, depth)
+                        cenv = {p: (RF.const(v) if isinstance(v, int) and not isinstance(v, bool) else Opaque(v) if isinstance(v, (str, bool)) or v is None else self._from_py(v) if isinstance(v, tuple) else v) for p, v in named.items()}
                         for st in g.node.body:
                             if isinstance(st, ast.Expr):
                                 continue
@@ -903,8 +1753,18 @@ class TermEval:
             raise ExtractionError(f"{fn.qual}: too many positional arguments")
         for p, v in zip(pos, args):
             env[p.arg] = v
+        if a.vararg is not None:
+            # `def f(*pairs)`: the surplus positional arguments, as the tuple the callee sees
+            env[a.vararg.arg] = Tup(list(args[len(pos):]))
+        named = {p.arg for p in [*pos, *a.kwonlyargs]}
+        extra = []
         for k, v in kwargs.items():
+            if a.kwarg is not None and k not in named:
+                extra.append((Opaque(k), v))  # `def f(**options)`: the surplus keywords, as the dict the callee sees
+                continue
             env[k] = v
+        if a.kwarg is not None:
+            env[a.kwarg.arg] = DictV(extra)
         defaults = dict(zip([p.arg for p in pos][len(pos) - len(a.defaults):], a.defaults))
         for p in a.kwonlyargs:
             pass
@@ -933,7 +1793,7 @@ class TermEval:
             if isinstance(st, ast.Expr) and isinstance(st.value, ast.Call) and isinstance(st.value.func, ast.Attribute):
                 call = st.value
                 recv = call.func.value
-                if call.func.attr == "update" and isinstance(recv, ast.Name) and isinstance(env.get(recv.id), DictV) and len(call.args) == 1:
+                if call.func.attr == "update" and isinstance(recv, ast.Name) and isinstance(env.get(recv.id), DictV) and len(call.args) == 1 and self.fork:
                     other = self.ev(call.args[0], env, fn, depth)
                     if not isinstance(other, DictV):
                         raise ExtractionError("dict.update with a non-literal mapping")
@@ -942,6 +1802,17 @@ class TermEval:
                         merged = [(a, b) for a, b in merged if vkey(a) != vkey(k)] + [(k, v)]
                     env[recv.id] = DictV(merged)
                     continue
+                if call.func.attr == "update" and not self.fork and (_attr_chain(recv) or "").split(".")[0] in env and len(call.args) <= 1:
+                    # `d.update(other)` / `self.registry.update({k: v})` on a dict value: in place, like `d[k] = v`
+                    holder = self.ev(recv, env, fn, depth)
+                    if isinstance(holder, DictV):
+                        _, kwargs = self._args(ast.Call(func=call.func, args=[], keywords=call.keywords), env, fn, depth)
+                        other = self.ev(call.args[0], env, fn, depth) if call.args else DictV([])
+                        if not isinstance(other, DictV):
+                            other = self._stdlib("builtins.dict", [other], {}, env, fn, depth, call)
+                        for k, v in [*other.items, *[(Opaque(k), v) for k, v in kwargs.items()]]:
+                            holder.items[:] = [(a, b) for a, b in holder.items if vkey(a) != vkey(k)] + [(k, v)]
+                        continue
                 base = recv
                 while isinstance(base, (ast.Attribute, ast.Subscript, ast.Call)):
                     base = base.value if not isinstance(base, ast.Call) else base.func
@@ -962,7 +1833,8 @@ class TermEval:
             if isinstance(st, (ast.Import, ast.ImportFrom, ast.Pass)):
                 continue
             if isinstance(st, (ast.FunctionDef,)):
-                env[st.name] = Opaque(("localfunc", st.name))
+                # a nested `def` is a callable value like a lambda (it may be handed to a helper as `key=` / `sqrt_function=`)
+                env[st.name] = Lam(st, env, fn)
                 env[("localfunc", st.name)] = st
                 continue
             if isinstance(st, ast.Return):
@@ -1009,12 +1881,58 @@ class TermEval:
                 for t in st.targets:
                     self._assign(t, val, env, fn, depth)
                 continue
-            if isinstance(st, ast.AugAssign) and isinstance(st.target, ast.Name) and isinstance(env.get(st.target.id), (RF, Mat, int, Fraction)):
+            if isinstance(st, ast.AugAssign) and isinstance(st.target, ast.Name) and (isinstance(env.get(st.target.id), (RF, Mat, int, Fraction)) or _is_text(env.get(st.target.id))):
                 # `x op= e` on a scalar / matrix term rebinds x to `x op e` (term values are immutable, so there
                 # is no aliasing to respect; lists, dicts and strings stay outside the grammar)
                 binop = ast.copy_location(ast.BinOp(left=ast.Name(id=st.target.id, ctx=ast.Load()), op=st.op, right=st.value), st)
                 env[st.target.id] = self.ev(binop, env, fn, depth)
                 continue
+            if isinstance(st, ast.AugAssign) and isinstance(st.target, ast.Subscript) and not isinstance(st.target.slice, ast.Slice):
+                # `m[i, j] op= e` on a matrix / dict value: the item assignment of `m[i, j] op e`
+                load = ast.copy_location(ast.Subscript(value=st.target.value, slice=st.target.slice, ctx=ast.Load()), st.target)
+                binop = ast.copy_location(ast.BinOp(left=load, op=st.op, right=st.value), st)
+                self._assign(st.target, self.ev(binop, env, fn, depth), env, fn, depth)
+                continue
+            if isinstance(st, ast.Try) and not st.finalbody:
+                # on the path where nothing is raised a `try` is its body; where the body raises for these constants
+                # the statement raises too if every handler only re-raises (`except KeyError: raise ValueError(...)`)
+                try:
+                    return self.eval_body([*st.body, *st.orelse, *body[idx + 1:]], env, fn, depth)
+                except RaisedError:
+                    if all(h.body and all(isinstance(s_, ast.Raise) or (isinstance(s_, ast.Assign) and _only_strings(s_)) for s_ in h.body) for h in st.handlers):
+                        raise
+                    raise ExtractionError(f"{fn.qual}: the body of a `try` raises for these constants and a handler may take over: outside the straight-line grammar") from None
+            if isinstance(st, ast.Assert):
+                try:
+                    holds = self.const(st.test, env, fn)
+                except TermEval.NotConst:
+                    holds = True  # validation over symbolic values: contributes nothing to the term
+                if not holds:
+                    raise RaisedError(f"{fn.qual}: `assert {unparse(st.test)[:50]}` fails for these constants")
+                continue
+            if isinstance(st, ast.For):
+                # a loop over a collection of known length and order IS its unrolled statement list: the element
+                # values are held under names no program can spell and assigned to the loop target per round, and
+                # the rest of the body follows - so returns inside the loop and path forking work as in straight-line code
+                if any(isinstance(n, (ast.Break, ast.Continue)) for s_ in st.body for n in ast.walk(s_)):
+                    raise ExtractionError(f"{fn.qual}: loop with break / continue is outside the straight-line grammar")
+                try:
+                    coll = self.ev(st.iter, env, fn, depth)
+                except ExtractionError as exc:
+                    if isinstance(exc, RaisedError):
+                        raise
+                    try:
+                        coll = self._from_py(self.const(st.iter, env, fn))
+                    except TermEval.NotConst:
+                        raise exc from None
+                items = self._sequence(coll, f"{fn.qual}: loop over `{unparse(st.iter)[:50]}`")
+                unrolled: list[ast.stmt] = []
+                for k, item in enumerate(items):
+                    hidden = f"<for {getattr(st, 'lineno', 0)}:{getattr(st, 'col_offset', 0)} #{k}>"
+                    env[hidden] = item
+                    unrolled.append(ast.copy_location(ast.Assign(targets=[st.target], value=ast.Name(id=hidden, ctx=ast.Load())), st))
+                    unrolled.extend(st.body)
+                return self.eval_body([*unrolled, *st.orelse, *body[idx + 1:]], env, fn, depth)
             if isinstance(st, ast.If):
                 # a test over constants (finite index domain) is decided by constant propagation
                 try:
@@ -1059,6 +1977,7 @@ class TermEval:
                     return branches[0][0] if len(branches) == 1 else PW(branches)
                 # tolerated: guard clauses that only raise (argument validation)
                 if all(isinstance(s, ast.Raise) or (isinstance(s, ast.Assign) and _only_strings(s)) for s in st.body) and not st.orelse:
+                    self.skipped_guards.append(f"{fn.qual}: `if {unparse(st.test)[:60]}`")
                     continue
                 raise ExtractionError(f"{fn.qual}: branching body (`if {unparse(st.test)[:50]}`) is outside the straight-line grammar")
             raise ExtractionError(f"{fn.qual}: statement {type(st).__name__} outside the straight-line grammar")
@@ -1073,6 +1992,32 @@ class TermEval:
             if self.fork:
                 raise ExtractionError("item assignment under path forking (the paths would share the mapping)")
             base = self.ev(target.value, env, fn, depth)
+            if isinstance(base, Mat) and isinstance(target.slice, ast.Tuple) and any(isinstance(e, ast.Slice) for e in target.slice.elts):
+                # `m[1:, 1:] = block`: the entries of the block, in place
+                rows, cols, _ = self._mat_ranges(base, target.slice, env, fn, target)
+                block = val
+                if isinstance(block, Tup) and all(isinstance(r, Tup) for r in block.items):
+                    block = Mat([[self._rf(e) for e in r.items] for r in block.items])
+                elif isinstance(block, Tup) and (len(rows) == 1 or len(cols) == 1):
+                    flat = [self._rf(e) for e in block.items]
+                    block = Mat([flat]) if len(rows) == 1 else Mat([[e] for e in flat])
+                if not isinstance(block, Mat) or block.shape != (len(rows), len(cols)):
+                    raise ExtractionError(f"`{unparse(target)[:40]} = ...`: the assigned value is not a {len(rows)}x{len(cols)} block")
+                for bi, i in enumerate(rows):
+                    for bj, j in enumerate(cols):
+                        base.rows[i][j] = block.rows[bi][bj]
+                return
+            if isinstance(base, Mat):
+                # `m[i, j] = v` on a matrix value (sp.eye(4) completed entry by entry): in place, like the object
+                idx = self.ev(target.slice, env, fn, depth)
+                if not (isinstance(idx, Tup) and len(idx.items) == 2 and all(isinstance(i, RF) and i.is_const() and i.const_value().denominator == 1 for i in idx.items)):
+                    raise ExtractionError(f"matrix item assignment `{unparse(target)[:40]}`: index is not a pair of constants")
+                i, j = (int(x.const_value()) for x in idx.items)
+                n_rows, n_cols = base.shape
+                if not (-n_rows <= i < n_rows and -n_cols <= j < n_cols):
+                    raise RaisedError(f"`{unparse(target)[:40]}` raises IndexError")
+                base.rows[i][j] = self._rf(val)
+                return
             if not isinstance(base, DictV):
                 raise ExtractionError(f"item assignment to `{unparse(target.value)[:40]}`: not a dict value")
             key = self.ev(target.slice, env, fn, depth)
@@ -1084,6 +2029,13 @@ class TermEval:
                 # `a, b = x.pair` on an opaque object: a is what `x.pair[0]` denotes, b what `x.pair[1]` denotes
                 # (the same atoms as _ev_Subscript makes; a length mismatch would raise in Python)
                 val = Tup([RF.atom(("sym", ("attr", val.key, ("idx", (vkey(RF.const(i)),))))) for i in range(len(target.elts))])
+            if isinstance(val, frozenset):
+                # `(x,) = S` for a constant set: determined only if S has one element (or no order is needed)
+                if len(val) != len(target.elts) and not any(isinstance(t, ast.Starred) for t in target.elts):
+                    raise RaisedError(f"unpacking a set of {len(val)} elements into {len(target.elts)} targets raises ValueError")
+                val = Tup(self._sequence(val, "unpacking a set"))
+            if isinstance(val, DictV) or self.record_of(val) is not None:
+                val = Tup(self._sequence(val, "unpacking"))
             if not isinstance(val, Tup):
                 raise ExtractionError("unpacking a non-tuple")
             star = [i for i, t in enumerate(target.elts) if isinstance(t, ast.Starred)]
@@ -1100,6 +2052,14 @@ class TermEval:
                 self._assign(target.elts[s].value, Tup(val.items[s: len(val.items) - n_after]), env, fn, depth)
                 for t, v in zip(target.elts[s + 1:], val.items[len(val.items) - n_after:]):
                     self._assign(t, v, env, fn, depth)
+        elif isinstance(target, ast.Attribute):
+            # `self.x = v` on an object value (see `new_object`): the attribute of that object, in place
+            base = self.ev(target.value, env, fn, depth)
+            if not (isinstance(base, dict) and "__class__" in base):
+                raise ExtractionError(f"attribute assignment `{unparse(target)[:40]}`: not an object value")
+            if self.fork:
+                raise ExtractionError("attribute assignment under path forking (the paths would share the object)")
+            base[target.attr] = val
         else:
             raise ExtractionError(f"assignment target {type(target).__name__}")
 
@@ -1116,6 +2076,7 @@ class TermEval:
             elif f.name == "name":
                 struct[f.name] = Opaque(None)
         struct["args"] = Tup(list(info.args))
+        struct["__class__"] = Opaque(("ref", cls_qual))
         return {"self": struct}
 
     def unfold_atom(self, atom, method: str = "evaluate", depth: int = 0):
@@ -1123,7 +2084,7 @@ class TermEval:
         if info.cls not in self.classes:
             raise ExtractionError(f"cannot unfold {info.cls}")
         cls = self.classes[info.cls]
-        m = cls.method(method)
+        m = self.tree.lookup_method(cls.info, method)  # own or inherited from a repo base class
         if m is None:
             raise ExtractionError(f"{cls.name} has no {method}()")
         env = self.self_env(info.cls, info)
@@ -1164,6 +2125,27 @@ def _all_atoms(v: RF) -> set:
     return v.atoms()
 
 
+_TEXT_METHODS = {
+    "strip", "lstrip", "rstrip", "replace", "lower", "upper", "title", "capitalize", "zfill", "ljust", "rjust", "center", "removeprefix", "removesuffix",
+    "split", "rsplit", "splitlines", "expandtabs", "startswith", "endswith", "count", "find", "rfind", "isdigit", "isalpha", "isidentifier", "partition", "rpartition",
+}
+
+
+def _is_text(v) -> bool:
+    """A string constant (immutable: `s += t` rebinds, there is no aliasing to respect)."""
+    return isinstance(v, Opaque) and isinstance(v.key, str) and not isinstance(v.key, bool)
+
+
+def _is_stdlib(name: str) -> bool:
+    """A standard-library callable that TermEval._stdlib folds."""
+    mod, _, short = name.rpartition(".")
+    if mod in {"operator", "_operator"}:
+        return short in STDLIB_ARITH or short in STDLIB_REL or short in {"neg", "pos"}
+    if mod == "builtins":
+        return short in BUILTIN_FOLDS
+    return name in STDLIB_FOLDS
+
+
 def deep_atoms(te: "TermEval", v, _seen=None) -> set:
     """All atoms of a value, looking through App arguments, sqrt radicands and containers."""
     out: set = set()
@@ -1198,6 +2180,9 @@ def deep_atoms(te: "TermEval", v, _seen=None) -> set:
         elif isinstance(x, Rel):
             visit(x.lhs)
             visit(x.rhs)
+        elif isinstance(x, Logic):
+            for y in x.args:
+                visit(y)
 
     visit(v)
     return out
